@@ -710,7 +710,12 @@ func main() {
 	x.col.flush(r)
 	r.Set("ecosystem_names", names)
 	r.Set("per_ecosystem", stats)
-	r.Set("observations", []string{"semver: a pre-release identifier '-N' (hyphen + digits) is compared as the number -N; semver 2.0 says it is alphanumeric. Outside the canonical sub-grammar, not demanded."})
+	r.Set("observations", []string{
+		"semver: a pre-release identifier '-N' (hyphen + digits, e.g. 1.0.0--1) is compared as the number -N; semver 2.0 says it is alphanumeric (higher than any numeric identifier). Outside the canonical sub-grammar, not demanded.",
+		"RubyGems: '-' is kept as a string segment \"-\" whereas Gem::Version rewrites it to '.pre.' (1.0-1 vs 1.0.a1 differ in sign). Outside the canonical sub-grammar, not demanded.",
+		"Packagist: an unknown stability word weighs the same as 'dev' (PHP version_compare puts it below dev). Outside the canonical sub-grammar, not demanded.",
+		"Maven: cycles such as 1 < 1-sp < 1.0.alpha < 1 are reproduced from Maven's own ComparableVersion; documented don't-care.",
+	})
 	r.Assume("distinct_nontrivial = distinct accepted strings (64-bit FNV, per comparator) + strictly ordered pairs of S1 and S2 (per comparator)")
 	r.Finish(rule, true)
 }
